@@ -84,6 +84,8 @@ def spaces(tier):
         out.append(cs.db_space(4, combo, 1))
     for combo in cs.LONGSTEP:
         out.append(cs.db_space(3 if tier == 'quick' else 4, combo, 1))
+    out.append(cs.db_space(3 if tier == 'quick' else 4, cs.COMBOS[1], 1,
+                           int_thresholds=True))
     for k, t0 in enumerate(cs.FAR_T0):
         out.append(cs.db_space(3 if tier == 'quick' else 4, cs.COMBOS[k], 1,
                                t0=t0))
